@@ -153,13 +153,14 @@ static std::vector<std::string> *g_capture_keys = NULL;
 struct Case
 {
     long k;
+    uint64_t stream;      // PRNG stream of the stage (a harness that re-executes itself for one case passes it on)
     Rng rng;
     bool nontrivial;
     bool inconclusive;
     bool skip;            // case index outside the enumerated space: not an evaluation
     std::string sig;      // abstract behaviour signature (hashed into the E line)
     std::string replay_path; // when set (--only with --dump), harness writes its input there
-    Case(long k_, uint64_t seed, uint64_t stream): k(k_), rng(seed, stream, (uint64_t)k_), nontrivial(false), inconclusive(false), skip(false) {}
+    Case(long k_, uint64_t seed, uint64_t stream_): k(k_), stream(stream_), rng(seed, stream_, (uint64_t)k_), nontrivial(false), inconclusive(false), skip(false) {}
     // Report a refuting event. key identifies WHAT fails (used for known-findings matching).
     void violation(const std::string &key, const std::string &detail)
     {
